@@ -181,6 +181,52 @@ func evalC20(w *fw.W, key, kind string) {
 	}
 }
 
+// evalC20AfterUse: the tables are read again after the detectors have been used on a corpus that
+// reaches every lexer, fold rule family and classifier branch; they must be what they were at start-up.
+func evalC20AfterUse(w *fw.W, _, _ string) {
+	before := currentTables()
+	use := append([]string{}, fixtures()...)
+	use = append(use, c05SQL...)
+	use = append(use, c05XSS...)
+	use = append(use, c03Strings(true)...)
+	use = append(use, c04Vectors(false)...)
+	use = append(use, "<set attributeName=\"&#111;nclick\">", "<a attributename=&#x6f;nload>", "<svg xmlns:xl=x><a xl:href=javascript:x>", "1 union all select 1 from dual", "a natural full outer join b")
+	for _, s := range use {
+		func() {
+			defer func() { recover() }()
+			lib.IsSQLi(s)
+			lib.IsXSS(s)
+		}()
+	}
+	after := currentTables()
+	w.Traces(len(use))
+	w.NonTrivial()
+	diff := func(kind, k, a, b string) {
+		w.Fail("table-changed-at-run-time", fmt.Sprintf("%s entry %q was %s at start-up and is %s after %d calls of the detectors", kind, k, a, b, len(use)))
+	}
+	for k, v := range before.SQL {
+		if after.SQL[k] != v {
+			diff("keyword", k, fmt.Sprintf("%q", v), fmt.Sprintf("%q", after.SQL[k]))
+			return
+		}
+	}
+	for k, v := range before.Attrs {
+		if a, ok := after.Attrs[k]; !ok || a != v {
+			diff("black attribute", k, fmt.Sprint(v), fmt.Sprintf("%d (present=%v)", a, ok))
+			return
+		}
+	}
+	for k, v := range before.Events {
+		if a, ok := after.Events[k]; !ok || a != v {
+			diff("event", k, fmt.Sprint(v), fmt.Sprintf("%d (present=%v)", a, ok))
+			return
+		}
+	}
+	if strings.Join(before.Tags, ",") != strings.Join(after.Tags, ",") {
+		diff("black tag list", "*", strings.Join(before.Tags, ","), strings.Join(after.Tags, ","))
+	}
+}
+
 func sortedKeys(m map[string]string) []string {
 	var k []string
 	for s := range m {
@@ -250,6 +296,9 @@ func init() {
 			{Name: "tables", Space: "all entries of the current tables + all entries of the pinned baseline", Share: 1,
 				Run:  func(w *fw.W) { w.Each(len(items), func(i int) { w.Item(items[i].key, items[i].kind) }) },
 				Eval: evalC20},
+			{Name: "tables-after-use", Space: "the five tables re-read after ~50 000 calls of both detectors over the fixtures, the C05 operations and the C03 / C04 grammars: every start-up entry must be unchanged (baseline entries are never lost at run time either)", Share: 1, Serial: true,
+				Run:  func(w *fw.W) { w.Item("", "after-use"); w.Finish() },
+				Eval: evalC20AfterUse},
 		},
 	})
 }
